@@ -26,7 +26,8 @@ Definition show_outcome (o : outcome) : string :=
 
 Inductive case :=
 | CChain (cfg : config) (method uri : bytes) (hs : option headers) (resps : list response)
-| CJoin (base ref : bytes).
+| CJoin (base ref : bytes)
+| CMulti (cfg : config) (chains : list (bytes * bytes * option headers * list response)) (sched : list nat).
 
 Definition show_origin (u : bytes) : string :=
   let '(s, h, p) := origin u in show_hex s ++ "," ++ show_hex h ++ "," ++ show_N p.
@@ -38,4 +39,11 @@ Definition run_show (c : case) : string :=
       String.concat " " (map show_request reqs) ++ "|" ++ show_outcome out
       ++ match out with Final _ => "/" ++ show_nat (List.length reqs - 1) | _ => "" end
   | CJoin b r => let j := tw_urljoin b r in show_hex j ++ "|" ++ show_origin j
+  | CMulti cfg chains sched =>
+      let sts := map (fun c : bytes * bytes * option headers * list response =>
+                        let '(m, u, hs, resps) := c in c_start m u hs resps) chains in
+      String.concat " ## "
+        (map (fun st => String.concat " " (map show_request (c_reqs st)) ++ "|" ++ show_outcome (c_out st)
+                        ++ match c_out st with Final _ => "/" ++ show_nat (List.length (c_reqs st) - 1) | _ => "" end)
+             (sched_run cfg sched sts))
   end.
